@@ -36,15 +36,15 @@ Proof. exact limits_at_least_two. Qed.
 Print Assumptions C16_limits_at_least_two.
 
 (** (b) Peer's IDs. In every state the connection can reach ([reachP op_ok]: frames as the
-    parser delivers them, no retransmitted probing-ID frame, nothing after Close or after a
-    frame error) with non-zero-length IDs, a NEW_CONNECTION_ID frame never gives
+    parser delivers them - retransmitted, reordered, with Retire Prior To jumps -, path
+    probing, rotation; nothing after Close or after a frame error) with non-zero-length IDs, a NEW_CONNECTION_ID frame never gives
     PROTOCOL_VIOLATION or a panic; CONNECTION_ID_LIMIT_ERROR only if afterwards more than
     MaxActiveConnectionIDs pairwise distinct, received, never-retired sequence numbers are
     held - hence never when the peer's duplicate-free set of active IDs L has at most
     MaxActiveConnectionIDs elements; acceptance only if active + queue fit; any other
-    error only for conflicting contents of a queued sequence number. *)
+    error only for conflicting contents of a queued or probing sequence number. *)
 Theorem C16_accept_within_advertised : forall init ops st seq rpt c tok d,
-  reachP op_ok init ops st -> m_acid st <> [] -> 0 <= rpt <= seq -> safe_add st seq ->
+  reachP op_ok init ops st -> m_acid st <> [] -> 0 <= rpt <= seq ->
   let st' := fst (mgr_add seq rpt c tok d st) in
   let r := snd (mgr_add seq rpt c tok d st) in
   r <> RProto /\ r <> RPanic /\
@@ -54,11 +54,13 @@ Theorem C16_accept_within_advertised : forall init ops st seq rpt c tok d,
                  forall s, In s (held st') -> retc s (m_log st') = 0 /\
                                               (s = 0 \/ 1 <= frames_for s (MAdd seq rpt c tok d :: ops))) /\
   (forall L, NoDup L -> incl (held st') L -> zlength L <= MaxActiveConnectionIDs -> r <> RLimit) /\
-  (r = ROther -> exists x, In x (m_queue st) /\ n_seq x = seq /\ cid_eqb (n_cid x) c && (n_tok x =? tok) = false).
+  (r = ROther -> exists x, (In x (m_queue st) \/ exists id, In (id, x) (m_probing st)) /\
+                           n_seq x = seq /\ cid_eqb (n_cid x) c && (n_tok x =? tok) = false).
 Proof. exact accept_within_limit. Qed.
 Print Assumptions C16_accept_within_advertised.
 
-(** (c) Retirements, on the connection's histories: active / queued / probing sequence
+(** (c) Retirements, on the connection's histories (any frames the parser delivers,
+    including retransmissions for probing IDs): active / queued / probing sequence
     numbers are pairwise distinct; no RETIRE_CONNECTION_ID was ever queued for one of them;
     a received number that is no longer held has at least one RETIRE_CONNECTION_ID and at
     most one per frame received for it (exactly one if received once). *)
@@ -88,16 +90,22 @@ Theorem C16_retire_tracked_stays_tracked : forall init ops st o s,
 Proof. exact tracked_stays_tracked. Qed.
 Print Assumptions C16_retire_tracked_stays_tracked.
 
-(** FINDING: without [safe_add] statement (c) is false for the faithful model (and for the
-    implementation: harness witnesses W1, W2, W3, W3b). *)
-Theorem C16_retire_refuted :
-  (exists ops s, forallb parsable ops = true /\ forallb is_ok (mgr_classes ops (mgr_init w_init)) = true /\
-                 In s (held (mgr_run ops (mgr_init w_init))) /\
-                 1 <= retc s (m_log (mgr_run ops (mgr_init w_init)))) /\
-  (exists ops, forallb parsable ops = true /\ forallb is_ok (mgr_classes ops (mgr_init w_init)) = true /\
-               ~ NoDup (held (mgr_run ops (mgr_init w_init)))).
-Proof. exact retire_refuted. Qed.
-Print Assumptions C16_retire_refuted.
+(** Regression of the repaired finding connids/probing-dup (conn_id_manager.go:83 compared a
+    repeated NEW_CONNECTION_ID with highestProbingID before checking whether the number is in
+    use): the four former counterexamples W1, W2, W3, W3b are now ordinary histories and end
+    with the probing / active ID still held exactly once and never reported retired (W1, W2,
+    W3b), respectively with the retired ID staying retired (W3). *)
+Example C16_retire_regression :
+  (hist_okb w1 (mgr_init w_init) = true /\
+   cntz 1 (held (mgr_run w1 (mgr_init w_init))) = 1 /\ retc 1 (m_log (mgr_run w1 (mgr_init w_init))) = 0) /\
+  (hist_okb w2 (mgr_init w_init) = true /\ cntz 1 (held (mgr_run w2 (mgr_init w_init))) = 1) /\
+  (hist_okb w3 (mgr_init w_init) = true /\
+   m_active (mgr_run w3 (mgr_init w_init)) = 2 /\ cntz 1 (held (mgr_run w3 (mgr_init w_init))) = 0 /\
+   retc 1 (m_log (mgr_run w3 (mgr_init w_init))) = 2) /\
+  (hist_okb w3b (mgr_init w_init) = true /\
+   m_active (mgr_run w3b (mgr_init w_init)) = 1 /\ retc 1 (m_log (mgr_run w3b (mgr_init w_init))) = 0).
+Proof. exact retire_regression_w. Qed.
+Print Assumptions C16_retire_regression.
 
 (** (d) Reset tokens. On every history in which the manager is not used after Close and
     learns the transport-parameter token at most once (probing and retransmissions
